@@ -206,7 +206,15 @@ func cmdCheck(args []string) int {
 						// vacuity guard: only a definite `unsat` is a failure; one solver, short budget
 						r = solveCover(q, dir, o.Name)
 					} else {
-						r = solve(q, dir, o.Name, timeout, *tier == "thorough", prefer)
+						// opt timeout_factor=N: per-function multiplier of the per-obligation budget (for the few goals that
+						// need close to the default budget on an idle machine and must not depend on the load)
+						tmo := timeout
+						if fr.Con != nil {
+							if f, err := strconv.Atoi(fr.Con.Opts["timeout_factor"]); err == nil && f > 1 && f <= 6 {
+								tmo = timeout * f
+							}
+						}
+						r = solve(q, dir, o.Name, tmo, *tier == "thorough", prefer)
 					}
 					o.Status, o.Backend, o.Time, o.Output = r.status, r.backend, r.time, r.output
 					if len(q) > 0 {
